@@ -440,6 +440,30 @@ def packChunk(msg):
     lines.append(b'\r\n')
     return (b''.join(lines))
 
+def findEol(raw, eols=(CRLF, LF, CR)):
+    """
+    Returns duple (index, eol) where eol is the member of eols that occurs
+    earliest in raw and index is its offset in raw.
+    When more than one member of eols starts at that offset the longest one
+    wins so a CRLF pair is one end of line not two.
+    Returns (-1, None) when raw does not hold a complete end of line yet.
+    A CR in the last byte of raw is not complete when CRLF is also in eols
+    since its LF may arrive with the next bytes.
+    """
+    index = -1
+    found = None
+    for eol in eols:
+        i = raw.find(eol)  # not found i == -1
+        if i >= 0 and (index < 0 or i < index or
+                       (i == index and len(eol) > len(found))):
+            index = i
+            found = eol
+
+    if found == CR and CRLF in eols and index == len(raw) - 1:
+        return (-1, None)  # wait for next byte to tell CR from CRLF
+
+    return (index, found)
+
 def parseLine(raw, eols=(CRLF, LF, CR ), kind="event line"):
     """
     Generator to parse  line from raw bytearray
@@ -454,13 +478,11 @@ def parseLine(raw, eols=(CRLF, LF, CR ), kind="event line"):
     Raise error if eol not found before MAX_LINE_SIZE
     """
     while True:
-        for eol in eols:  # loop over eols unless found
-            index = raw.find(eol)  # not found index == -1
-            if index >= 0:
-                break
+        index, eol = findEol(raw, eols)  # earliest eol, index == -1 not found
 
         if index < 0:  # not found
-            if len(raw) > MAX_LINE_SIZE:
+            held = 1 if (CRLF in eols and raw.endswith(CR)) else 0  # maybe half of CRLF
+            if len(raw) - held > MAX_LINE_SIZE:
                 raise LineTooLong(kind)
             else:
                 (yield None)  # more data needed not done parsing header
@@ -486,13 +508,11 @@ def parseLeader(raw, eols=(CRLF, LF), kind="leader header line", headers=None):
     """
     headers = headers if headers is not None else lodict()
     while True:  # loop until entire heading indicated by empty line
-        for eol in eols:  # loop over eols unless found
-            index = raw.find(eol)  # not found index == -1
-            if index >= 0:
-                break
+        index, eol = findEol(raw, eols)  # earliest eol, index == -1 not found
 
         if index < 0:  # not found
-            if len(raw) > MAX_LINE_SIZE:
+            held = 1 if (CRLF in eols and raw.endswith(CR)) else 0  # maybe half of CRLF
+            if len(raw) - held > MAX_LINE_SIZE:
                 raise LineTooLong(kind)
             else:
                 (yield None)  # more data needed not done parsing header
